@@ -100,7 +100,7 @@ inline void sweep_stale_scratch() {
     if (!d) return;
     while (struct dirent* e = readdir(d)) {
         const char* n = e->d_name;
-        const char* pre[] = { "c12.", "c12r.", "c13.", "c13s.", "c13f." };
+        const char* pre[] = { "c12.", "c12r.", "c12n.", "c13.", "c13s.", "c13f.", "c13n." };
         for (const char* p : pre) {
             size_t l = strlen(p);
             if (strncmp(n, p, l) != 0) continue;
